@@ -11,7 +11,8 @@ EXPLANATION = (
     "their Command; (c) send_cmd maps Disconnected ⇒ DaemonShutdown and Full ⇒ Again, every public method reaches the "
     "daemon only through send_cmd, status() tests is_disconnected() first; (d) API-thread code performs no unbounded "
     "blocking channel operation; (e) F14 — daemon-thread code performs no blocking Sender::send on a bounded "
-    "multi-event client channel.  Decides these conditions, not interleavings as such.")
+    "multi-event client channel.  Decides these conditions, not interleavings as such."
+    " (g) Commands still queued when Exit is executed are consumed (answered or dropped) so that their reply channels close.")
 UNDECIDED = ["interleavings as such (exhaustive small-N exploration is a different technique family)",
              "that a blocked client eventually drains (environment)"]
 
